@@ -72,7 +72,9 @@ fn build_tag() -> String {
         "{}-{}-{}",
         if cfg!(feature = "fast") { "fast" } else { "exact" },
         if cfg!(target_feature = "fma") { "fma" } else { "nofma" },
-        if cfg!(feature = "misalign") {
+        if cfg!(feature = "allfeat") {
+            "allfeat"
+        } else if cfg!(feature = "misalign") {
             "misalign"
         } else if cfg!(debug_assertions) {
             "checked"
